@@ -169,7 +169,7 @@ func storedValuesRules(c *core.Ctx, r *core.Report, rule string) {
 					com := x.Common()
 					if cal := core.Callee(com); cal != nil {
 						switch cal.String() {
-						case "sort.Strings", "sort.Slice", "sort.SliceStable", "sort.Sort", "sort.Stable", "slices.Sort", "slices.Reverse", core.Mod + "/util/sort2.Slice":
+						case "sort.Strings", "sort.Slice", "sort.SliceStable", "sort.Sort", "sort.Stable", "slices.Sort", "slices.SortFunc", "slices.SortStableFunc", "slices.Reverse", core.Mod + "/util/sort2.Slice":
 							if len(com.Args) > 0 && tainted[stripIface(com.Args[0])] {
 								bad = "sorted in place by " + cal.Name()
 							}
